@@ -59,7 +59,7 @@ func c18Gen(r *core.Rng, seed uint64) c18Case {
 		cs.Dirs[c09Mod+"/"+q.Dir] = q.Dir
 	}
 	reals := core.SortedKeys(cs.Real)
-	target := core.Pick(r, []string{"", "", "alt.yml", "conf/nested/.mockery.yml", "conf/my config.yaml", world.RootPlaceholder + "/conf/abs.yml", "missing-dir/sub/.mockery.yml", "./conf/../conf/dotted.yml"})
+	target := core.Pick(r, []string{"", "", "alt.yml", "conf/nested/.mockery.yml", "conf/my config.yaml", world.RootPlaceholder + "/conf/abs.yml", "missing-dir/sub/.mockery.yml", "./conf/../conf/dotted.yml", "conf/", "conf/nested"})
 	pick := func() string {
 		if r.Chance(1, 2) {
 			return core.Pick(r, reals)
@@ -218,6 +218,17 @@ func evalC18(c *core.Ctx, cs c18Case, id string) Outcome {
 			out.Tags = append(out.Tags, "init-on:"+state)
 			if res.Panicked() {
 				return mk(i, "init-panic", state, "no panic", tail(res.Stderr, 500))
+			}
+			if strings.HasSuffix(op.Config, "/") {
+				// a path with a trailing slash can only name a directory: no file can be written there
+				out.Tags = append(out.Tags, "init-on:directory-path")
+				if len(diff) > 0 {
+					return mk(i, "init-failed-but-changed-tree", "directory-path", "nothing changes when the target cannot be a file", fmt.Sprint(diff))
+				}
+				if res.Exit == 0 {
+					return mk(i, "init-exit-0-without-file", "directory-path", "failure is reported", "exit 0")
+				}
+				continue
 			}
 			if existed {
 				if len(diff) > 0 {
